@@ -15,7 +15,8 @@ TRUSTED = [common.TEXT['msgsock'], server.lsock_class().text, server.rctx_class(
            'server-side RemoteWorker.__setstate__ (run by unpickling the worker payload) fails only with ConnectionClosedError when the client goes away during the handshake (its own lemma is not in this round; see assumptions)']
 ASSUMPTIONS = [
     'clients send messages of the protocol\'s types (header None or (ctx_id, bool); context payload None or a RemoteContext); what is unconstrained is WHERE the stream ends (every truncation point) and whether a reply can still be delivered',
-    'C11.L2 (no capture): the control-channel accept() inside RemoteWorker.__setstate__ and ctx.call(cli) wait for this one client without a bound; not decided in this round (design probe: finding unless a timeout is acceptable upstream)',
+    'C11.L2 (no capture) covers the wait for the control connection inside the server-side RemoteWorker.__setstate__ (the only wait of the accept loop\'s thread on a client other than reading its request); the waits on the server\'s OWN freshly spawned backend process further down that function (_startup_sync, runtime info) are C20\'s concern and are outside the scope of the lemma (paths end where the backend is created)',
+    'L2 environment: the client may vanish at any moment; TCP then makes the data socket readable (FIN/RST, keep-alive for a silent host: T2/T9); a client that stays connected but never opens the control connection is not a *failure* in the sense of the property and is not covered',
     'server shutdown (terminate()/SIGTERM) is modelled as WorkerTerminatedError raised while the server is blocked in accept(); landing at other points of the loop is C12.L4 (thorough, not in this round)',
 ]
 
@@ -163,12 +164,113 @@ def opt_ctx(I, nm):
     return VSym(I.ex.fresh(nm, Val), hint=('abs', 'RCtx'))
 
 
+RW = 'pyworkers.remote.RemoteWorker'
+
+
+def no_capture_lemma(ex):
+    """C11.L2: unpickling a worker request runs RemoteWorker.__setstate__ in the accept loop's own thread.  It must not wait for the control connection
+    of this one client without noticing that the client is gone: accept() on the control listening socket may be reached only when a connection is
+    known to be pending."""
+    from pyvc.contracts import AbsClass
+    from pyvc.core import PathEnd
+    repo = ex.repo
+
+    def listen_class():
+        def accept(ex_, a, k):
+            ex_.oblige('block', ex_.ghost['ctrl_pending_known'],
+                       'accept() on the control listening socket is reached only when a connection is known to be pending (a client that vanished before '
+                       'connecting the control channel would otherwise block the accept loop - and with it the whole server - for ever)',
+                       ex_.ghost.get('__cur_node__'), key=('ctrl-accept',))
+            conn = common.new_chan(ex_, 'Conn', 'ctrl')
+            return VTuple([conn, VSym(ex_.fresh('ctrl_peer', Val))])
+
+        def close(ex_, a, k):
+            ex_.ghost['ctrl_listen_closed'] = z3.BoolVal(True)
+            return NONE
+        noop = lambda ex_, a, k: NONE
+        return AbsClass('CtrlListen', fields={}, methods={'bind': noop, 'listen': noop, 'accept': accept, 'close': close, 'settimeout': noop, 'setblocking': noop,
+                                                          'getsockname': lambda ex_, a, k: VTuple([VSym(ex_.fresh('ctrl_host', Val)), VSym(ex_.fresh('ctrl_port', Val))]),
+                                                          'fileno': lambda ex_, a, k: VInt(ex_.fresh('fd', smt.Int))},
+                        text='listening socket of the control channel: accept() blocks until the client connects - for ever if it never does')
+
+    def select_model(ex_, a, k):
+        """select.select(rlist, [], [] [, timeout]): returns when one of rlist is readable.  The listening socket is readable when the client has connected,
+        the data socket when the client has sent something or is gone; with a time-out it may also return nothing"""
+        rl = a[0]
+        items = ex_.interp.iter_concrete(rl)
+        if items is None:
+            raise Undecided('select over a symbolic list')
+        listen = [x for x in items if isinstance(x, VAbs) and x.cls == 'CtrlListen']
+        others = [x for x in items if x not in listen]
+        timeout_given = len(a) > 3 and a[3] is not NONE
+        d = ex_.choose(3 if (listen and others) else 2, 'select:environment')
+        if d == 0 and listen:
+            ex_.note('select:client-connected')
+            ready = list(listen)
+            ex_.ghost['ctrl_pending_known'] = z3.BoolVal(True)
+        elif d == 2:
+            ex_.note('select:both-readable')
+            ready = list(listen) + list(others)
+            ex_.ghost['ctrl_pending_known'] = z3.BoolVal(True)
+        else:
+            # the client is gone (or, without a listening socket in the list, only data can arrive): nothing will ever connect
+            ex_.note('select:client-gone')
+            if others:
+                ready = list(others)
+            elif timeout_given:
+                ready = []
+            else:
+                ex_.oblige('block', z3.BoolVal(False), 'a wait for the control connection of a client also watches the data socket of that client (or has a time-out): '
+                           'otherwise a client that vanished before connecting blocks the accept loop for ever', ex_.ghost.get('__cur_node__'), key=('ctrl-select',))
+                raise PathEnd('select blocks for ever')
+        empty = lambda: ex_.alloc(HList([]))
+        return VTuple([ex_.alloc(HList(list(ready))), empty(), empty()])
+
+    def setup(ex_, env):
+        I = ex_.interp
+        ex_.abs_classes['CtrlListen'] = listen_class()
+        cc = ex_.abs_classes['Conn']
+        cc.methods.setdefault('getsockname', lambda ex2, a, k: VTuple([VSym(ex2.fresh('host', Val)), VSym(ex2.fresh('port', Val))]))
+        cc.methods.setdefault('getpeername', lambda ex2, a, k: VTuple([VSym(ex2.fresh('phost', Val)), VSym(ex2.fresh('pport', Val))]))
+        cc.methods.setdefault('settimeout', lambda ex2, a, k: NONE)
+        cli = common.new_chan(ex_, 'Conn', 'cli')
+        n = [0]
+
+        def new_socket(ex2, a, k):
+            n[0] += 1
+            return VAbs('CtrlListen', Val.v_str(z3.IntVal(smt.str_code(f'<control listening socket {n[0]}>'))))
+        ex_.ext_models['socket.socket'] = new_socket
+        ex_.ext_models['select.select'] = select_model
+        ex_.ghost['ctrl_pending_known'] = z3.BoolVal(False)
+        ex_.ghost['ctrl_listen_closed'] = z3.BoolVal(False)
+        env['self'] = ex_.alloc(HObj(repo.cls(RW), {}))
+        state = {'_from_remote_parent': VBool(True), '_socket': cli, '_remote_side': VBool(False), '_is_backend': VBool(False),
+                 '_payload': VBytes(ex_.fresh('payload', smt.Bytes)), '_context': I.sym('context'), '_name': I.sym('name'), '_child': NONE, '_startup_sync': NONE}
+        env['state'] = ex_.alloc(HDict(state))
+        hooks = dict(common.MSG_HOOKS)
+        hooks['pyworkers.remote.set_keepalive'] = lambda i, fi, a, k, nd, s: NONE
+        hooks['pyworkers.remote.set_linger'] = lambda i, fi, a, k, nd, s: NONE
+        ex_.ghost['__call_hooks__'] = hooks
+        ex_.ghost['send_raises'] = {'cli': ['ConnectionClosedError']}
+
+        def end_of_scope(I2, ci, a, k, node):
+            raise PathEnd('creation of the backend: end of the scope of C11.L2')
+        ex_.ghost['__new_hooks__'] = {'pyworkers.utils.Pipe': end_of_scope}
+        ex_.ghost['recv_closed_check'] = False
+
+    return Contract(RW + '.__setstate__', lid='L2', name='C11.L2 server-side RemoteWorker.__setstate__ never waits for the control connection of a client that is gone',
+                    params={'self': ('const', None), 'state': ('const', None)}, self_class=RW, setup=setup,
+                    ensures=[], raises={'ConnectionClosedError': None}, raises_only=['ConnectionClosedError'], options={'recv_closed_check': False})
+
+
 def build(ex):
     server.install(ex)
-    return [(build_run_contract(ex, ex.prop), None)]
+    return [(build_run_contract(ex, ex.prop), None), (no_capture_lemma(ex), None)]
 
 
 MUTANTS = [
+    ('pyworkers/remote.py', "            if incoming not in ready:\n                incoming.close()\n                raise ConnectionClosedError()\n", "", 'the control accept is entered although only the data socket became readable'),
+    ('pyworkers/remote.py', "            ready, _, _ = select.select([incoming, self._socket], [], [])\n", "            ready, _, _ = select.select([incoming], [], [])\n            ready = [incoming]\n", 'the wait for the control connection no longer watches the data socket'),
     ('pyworkers/remote_server.py', "                        except ConnectionClosedError:\n                            logger.info('Client disconnected before child was successfully created')\n                            continue", "                        except KeyError:\n                            continue", 'worker payload receive no longer guarded'),
     ('pyworkers/remote_server.py', "                            logger.warning('Context {} already exists', ctx_id)\n                            result = False\n", "                            logger.warning('Context {} already exists', ctx_id)\n                            result = False\n                            self.contexts[ctx_id] = context\n", 'a duplicate registration replaces the first context'),
     ('pyworkers/remote_server.py', "                        current = self.contexts.pop(ctx_id, None)", "                        current = self.contexts.get(ctx_id, None)", 'delete does not remove the context from the table'),
@@ -182,7 +284,7 @@ MUTANTS = [
 
 def replay(ob, repo):
     from pyvc.native import run_script
-    r = run_script('c11_native.py', {'name': 'all'}, repo, timeout=150)
+    r = run_script('c11_native.py', {'name': 'all'}, repo, timeout=250)
     return bool(r.get('violates')), r
 
 
